@@ -102,6 +102,16 @@ def names_module(ch):
         same = exotic_name(ch)
         m.func_names = {i: same for i in range(nimp + nf)}                              # duplicates, imports named too
     add_name_subsections(ch, m, nimp + nf)
+    if ch.below(5) == 0:
+        # a custom section that is CALLED "name" but whose content is not a well-formed name section (or refers to functions that do
+        # not exist): errors in the content of a custom section do not invalidate a module
+        m.func_names, m.name_subsections = None, None
+        junk = ch.pick((b'', b'\x01', b'\x01\x05\x01\x09\x01a', b'\x01\x04\x01\x00\x05ab', b'\xff\xff\xff', b'\x01\x7f', b'\x00\x80',
+                        b'\x01\x06\x02\x00\x01a\x00\x01b', b'\x01\x03\x01\x63\x00', b'\x02\xff\xff\xff\xff\x0f', b'\x01\x02\xff\x01',
+                        bytes(ch.below(256) for _ in range(ch.below(20)))))
+        m.customs.append((ch.below(12), b'name', junk))
+    if m.func_names is not None and ch.below(3) == 0:
+        m.name_section_pos = ch.below(12)        # the name section somewhere in front of / between the other sections
     return m
 
 
@@ -263,6 +273,8 @@ def any_module(ch, allow_stress=True):
             ni = m.n_imported_funcs()
             m.func_names = {ni + i: b'fn_%d' % i for i in range(len(m.funcs)) if ch.below(4)}
             add_name_subsections(ch, m, ni + len(m.funcs))
+            if ch.below(3) == 0:
+                m.name_section_pos = ch.below(12)
         if ch.below(3) == 0:
             # a valid module is valid in every spec-equivalent encoding: padded LEB128 fields, flag-2 data segments, custom sections,
             # regrouped locals, empty sections, DataCount
